@@ -11,7 +11,7 @@ import json, os, re, shutil, signal, subprocess, sys, tempfile, time, hashlib, r
 VERIF = os.path.dirname(os.path.dirname(os.path.abspath(__file__)))
 REPO = os.environ.get("VERIF_REPO", "/repo")
 SPEC = os.path.join(VERIF, "spec")
-BUILD = os.path.join(VERIF, "build")
+BUILD = os.environ.get("VERIF_BUILD", os.path.join(VERIF, "build"))
 HARNESS = os.path.join(VERIF, "harness")
 TLA_CP = "/opt/veriftools/tla/tla2tools.jar:/opt/veriftools/tla/CommunityModules-deps.jar"
 GOENV = dict(GOFLAGS="-mod=mod", GOPROXY="off", GOSUMDB="off", GOTOOLCHAIN="local")
@@ -44,7 +44,12 @@ def build(name, pkg=None, tags="verif"):
     os.makedirs(BUILD, exist_ok=True)
     out = os.path.join(BUILD, name)
     env = dict(os.environ, **GOENV)
-    cmd = ["go", "build", "-tags", tags, "-o", out, pkg or ("./cmd/" + name)]
+    cmd = ["go", "build", "-tags", tags, "-o", out]
+    if REPO != "/repo":     # mutation testing in a scratch worktree: alternate go.mod with another replace target
+        alt = os.path.join(BUILD, "go.alt.mod")
+        open(alt, "w").write(open(os.path.join(HARNESS, "go.mod")).read().replace("=> /repo", "=> " + REPO))
+        cmd += ["-modfile", alt]
+    cmd += [pkg or ("./cmd/" + name)]
     r = subprocess.run(cmd, cwd=HARNESS, env=env, capture_output=True, text=True)
     if r.returncode != 0:
         raise Undecided("go build %s failed:\n%s" % (name, r.stderr[-3000:]))
@@ -207,9 +212,11 @@ def prepare_dir(inst, d, pre_content=None, ctl=None):
     for key, kind in inst.get("faults", {}).items():
         with open(os.path.join(d, "ctl", key + ".fault"), "w") as fh:
             fh.write(kind)
-    for name, val in (ctl or {}).items():
+    for name, val in dict(inst.get("ctl", {}), **(ctl or {})).items():
         with open(os.path.join(d, "ctl", name), "w") as fh:
             fh.write(str(val))
+    for sub in inst.get("mkdirs", []):      # pre-existing directories (obstacles, destinations)
+        os.makedirs(os.path.join(d, sub), exist_ok=True)
     with open(os.path.join(d, "wf.json"), "w") as fh:
         json.dump(norm_inst(inst), fh)
 
@@ -461,9 +468,10 @@ class Check:
         ev = dict(property_id=self.pid, tier=self.tier, seed=seed(), level=self.level, coverage=cov,
                   assumptions=self.assumptions, wall_s=round(time.time() - self.t0, 2),
                   violations=len(self.violations))
-        os.makedirs(os.path.join(VERIF, "evidence"), exist_ok=True)
-        with open(os.path.join(VERIF, "evidence", self.pid + ".json"), "w") as fh:
-            json.dump(ev, fh, indent=1, default=str)
+        if not os.environ.get("VERIF_NO_EVIDENCE"):     # set only by the mutation-testing helper
+            os.makedirs(os.path.join(VERIF, "evidence"), exist_ok=True)
+            with open(os.path.join(VERIF, "evidence", self.pid + ".json"), "w") as fh:
+                json.dump(ev, fh, indent=1, default=str)
         if self.violations:
             return 1
         if self.undecided:
